@@ -1,7 +1,389 @@
-(** Lemmas about the painter and the driver model (C20). *)
+(** Lemmas about the painter model (C20): what every operation writes and how
+    it changes depth, prefix and widths. *)
 From DivanV Require Import Base.Res Model.Painter Model.DriverPaint Model.Parse.
+From Coq Require Import Lia.
 
 (** An ignored entry paints one [(ignored)] line and calls nothing. *)
 Lemma ignored_entry_ops : forall a id name args threads out is_last,
   run_bench_entry a id name true args threads out is_last = [IgnoreLeaf name is_last].
 Proof. reflexivity. Qed.
+
+(** ** Shape of a written row *)
+
+(** [row_shape cells s]: [s] is the cells in order, each followed by some
+    padding and separated by " │ "; an empty last cell is preceded by " │"
+    only. *)
+Inductive row_shape : list str -> str -> Prop :=
+| RS_one : forall v, row_shape [v] v
+| RS_last_empty : forall v k, row_shape [v; []] (v ++ spaces k ++ [sp; c_bar])
+| RS_cons : forall v k rest t, rest <> [] -> row_shape rest t ->
+    row_shape (v :: rest) (v ++ spaces k ++ [sp; c_bar; sp] ++ t).
+
+Definition sep_shape (cells : list str) (s : str) : Prop :=
+  (cells = [[]] /\ s = [sp; c_bar]) \/
+  (cells <> [[]] /\ exists t, s = [sp; c_bar; sp] ++ t /\ row_shape cells t).
+
+Definition hd_pos (ws : list nat) : Prop :=
+  match ws with w :: _ => 0 < w | [] => False end.
+
+Lemma write_go_cons2 : forall first v v2 rest w ws,
+  write_go first (v :: v2 :: rest) (w :: ws) =
+  bind (write_go false (v2 :: rest) ws) (fun r =>
+    Ok ((if first then [] else [sp; c_bar; sp]) ++ v
+        ++ (if Nat.leb (length v) w then spaces (w - length v) else []) ++ fst r,
+        (if Nat.leb (length v) w then w else length v) :: snd r)).
+Proof. intros. destruct first; reflexivity. Qed.
+
+Lemma pad_spaces : forall (v : str) w,
+  exists k, (if Nat.leb (length v) w then spaces (w - length v) else []) = spaces k.
+Proof. intros. destruct (Nat.leb (length v) w); [eexists; reflexivity | exists 0; reflexivity]. Qed.
+
+Lemma row_shape_step : forall v rest s pad,
+  (exists k, pad = spaces k) -> sep_shape rest s -> rest <> [] -> row_shape (v :: rest) (v ++ pad ++ s).
+Proof.
+  intros v rest s pad (k & ->) Sh Hne.
+  destruct Sh as [[-> ->] | [Hn (t & -> & Ht)]].
+  - apply RS_last_empty.
+  - apply RS_cons; [congruence | exact Ht].
+Qed.
+
+Lemma write_go_false : forall cells ws,
+  cells <> [] -> length cells <= S (length ws) ->
+  exists s ws', write_go false cells ws = Ok (s, ws') /\ sep_shape cells s /\
+                length ws' = length ws /\ (hd_pos ws -> hd_pos ws').
+Proof.
+  induction cells as [|v rest IH]; intros ws Hne Hlen; [congruence|].
+  destruct rest as [|v2 rest'].
+  - cbn [write_go]. destruct v as [|c v'].
+    + exists [sp; c_bar], ws. cbn. repeat split; auto. left; auto.
+    + exists ([sp; c_bar; sp] ++ c :: v'), ws. cbn. repeat split; auto.
+      right. split; [congruence|]. exists (c :: v'). split; auto. constructor.
+  - destruct ws as [|w ws']; [cbn in Hlen; lia|].
+    destruct (IH ws') as (s & wsr & E & Sh & L & Hp); [congruence | cbn in *; lia |].
+    rewrite write_go_cons2, E. cbn [bind fst snd].
+    eexists. eexists. split; [reflexivity|].
+    split; [|split].
+    + right. split; [congruence|]. eexists. split; [reflexivity|].
+      apply row_shape_step; [apply pad_spaces | exact Sh | congruence].
+    + cbn. rewrite L. reflexivity.
+    + intros Hw. cbn in *. destruct (Nat.leb (length v) w) eqn:El; [exact Hw|].
+      apply PeanoNat.Nat.leb_gt in El. lia.
+Qed.
+
+Lemma write_cols_shape : forall cells ws,
+  cells <> [] -> length cells <= S (length ws) ->
+  exists s ws', write_cols cells ws = Ok (s, ws') /\ row_shape cells s /\
+                length ws' = length ws /\ (hd_pos ws -> hd_pos ws').
+Proof.
+  intros cells ws Hne Hlen. unfold write_cols.
+  destruct cells as [|v rest]; [congruence|].
+  destruct rest as [|v2 rest'].
+  - exists v, ws. cbn. repeat split; auto. constructor.
+  - destruct ws as [|w ws']; [cbn in Hlen; lia|].
+    destruct (write_go_false (v2 :: rest') ws') as (s & wsr & E & Sh & L & Hp); [congruence | cbn in *; lia |].
+    rewrite write_go_cons2, E. cbn [bind fst snd app].
+    eexists. eexists. split; [reflexivity|].
+    split; [|split].
+    + apply row_shape_step; [apply pad_spaces | exact Sh | congruence].
+    + cbn. rewrite L. reflexivity.
+    + intros Hw. cbn in *. destruct (Nat.leb (length v) w) eqn:El; [exact Hw|].
+      apply PeanoNat.Nat.leb_gt in El. lia.
+Qed.
+
+(** ** Lines *)
+
+Definition tail_ok (c : option (list str)) (tail : str) : Prop :=
+  match c with
+  | None => exists k, tail = spaces k /\ (k = 0 \/ 2 <= k)
+  | Some row => exists k s, 2 <= k /\ tail = spaces k ++ s /\ row_shape row s
+  end.
+
+Definition line_ok (l : lspec) (line : str) : Prop :=
+  match l with
+  | LTop n c => exists tail, line = n ++ tail /\ tail_ok c tail
+  | LNode fl last n c =>
+    exists tail, line = units_str fl ++ branch_glyph last ++ n ++ tail /\ tail_ok c tail
+  | LRow fl last row =>
+    exists k s, 2 <= k /\
+      line = units_str fl ++ (if last then [] else [c_bar]) ++ spaces k ++ s /\ row_shape row s
+  | LBlank => line = []
+  end.
+
+Definition unlines (ls : list str) : str := flat_map (fun l => l ++ [nl]) ls.
+
+Definition lines_shape (specs : list lspec) (out : str) : Prop :=
+  exists ls, out = unlines ls /\ Forall2 line_ok specs ls.
+
+Lemma unlines_app : forall a b, unlines (a ++ b) = unlines a ++ unlines b.
+Proof. intros. unfold unlines. apply flat_map_app. Qed.
+
+Lemma lines_shape_app : forall s1 s2 o1 o2,
+  lines_shape s1 o1 -> lines_shape s2 o2 -> lines_shape (s1 ++ s2) (o1 ++ o2).
+Proof.
+  intros s1 s2 o1 o2 (l1 & -> & F1) (l2 & -> & F2).
+  exists (l1 ++ l2). split; [symmetry; apply unlines_app | apply Forall2_app; auto].
+Qed.
+
+Lemma lines_shape_nil : lines_shape [] [].
+Proof. exists []. split; [reflexivity | constructor]. Qed.
+
+Lemma lines_shape_one : forall spec line, line_ok spec line -> lines_shape [spec] (line ++ [nl]).
+Proof.
+  intros. exists [line]. split; [cbn; rewrite app_nil_r; reflexivity | repeat constructor; auto].
+Qed.
+
+(** ** The painter invariant under an action *)
+
+Definition inv (a : action) (p : painter) : Prop :=
+  if is_bench a then length (widths p) = 6 /\ hd_pos (widths p)
+  else widths p = [0; 0; 0; 0; 0; 0].
+
+Lemma inv_has_columns : forall a p, inv a p -> has_columns p = is_bench a.
+Proof.
+  intros a p H. unfold inv in H. unfold has_columns.
+  destruct (is_bench a).
+  - destruct H as [_ H]. destruct (widths p) as [|w ws]; [contradiction|].
+    cbn in *. destruct w; [lia|]. reflexivity.
+  - rewrite H. reflexivity.
+Qed.
+
+Lemma units_str_app : forall a b, units_str (a ++ b) = units_str a ++ units_str b.
+Proof. induction a; intros; cbn; [reflexivity|]. rewrite IHa, app_assoc. reflexivity. Qed.
+
+Lemma units_str_length : forall fl, length (units_str fl) = 3 * length fl.
+Proof. induction fl as [|f fl IH]; cbn [units_str length]; [reflexivity|].
+  rewrite app_length, IH. destruct f; cbn; lia. Qed.
+
+Lemma right_pad_spec : forall n m, exists k, fst (right_pad n m) = spaces k /\ 2 <= k.
+Proof. intros. unfold right_pad, tree_col_buf. cbn [fst]. eexists. split; [reflexivity|]. lia. Qed.
+
+Lemma headings_len : length headings = 6. Proof. reflexivity. Qed.
+
+Lemma parent_row_ok : forall top, let row := if top then headings else six_empty in
+  row <> [] /\ length row = 6.
+Proof. intros []; cbn; split; congruence. Qed.
+
+(** [start_parent] below the top level. *)
+Lemma start_parent_inner : forall a p fl name l,
+  inv a p -> depth p = S (length fl) -> prefix p = units_str fl ->
+  exists p' line, start_parent p name l = Ok (p', line ++ [nl]) /\
+    line_ok (LNode fl l name (parent_cells a false)) line /\
+    inv a p' /\ depth p' = S (S (length fl)) /\ prefix p' = units_str (fl ++ [negb l]).
+Proof.
+  intros a p fl name l Hinv Hd Hp.
+  pose proof (inv_has_columns _ _ Hinv) as Hc.
+  unfold start_parent. rewrite Hd. cbn [Nat.eqb]. rewrite Hc.
+  unfold parent_cells, inv in *.
+  destruct (is_bench a) eqn:Ea.
+  - destruct Hinv as [Hl Hpos].
+    destruct (write_cols_shape six_empty (widths p)) as (s & ws' & E & Sh & L & Hp');
+      [cbn; congruence | rewrite Hl; cbn; lia |].
+    destruct (right_pad_spec (length (prefix p ++ branch_glyph l ++ name)) (max_name_span p)) as (k & Ek & Hk).
+    destruct (right_pad _ _) as [pad span] eqn:Erp. cbn [fst] in Ek. subst pad.
+    rewrite E. cbn [bind fst snd].
+    eexists. exists (units_str fl ++ branch_glyph l ++ name ++ spaces k ++ s).
+    split; [|split; [|split; [|split]]].
+    + rewrite Hp. f_equal. f_equal. rewrite <- !app_assoc. reflexivity.
+    + cbn. eexists. split; [reflexivity|]. exists k, s. auto.
+    + cbn [widths]. rewrite Ea. split; [lia | auto].
+    + reflexivity.
+    + cbn [prefix]. rewrite Hp, units_str_app. cbn. destruct l; cbn; rewrite app_nil_r; reflexivity.
+  - cbn [bind fst snd].
+    eexists. exists (units_str fl ++ branch_glyph l ++ name).
+    split; [|split; [|split; [|split]]].
+    + rewrite Hp. f_equal. f_equal. rewrite !app_nil_r, <- !app_assoc. reflexivity.
+    + cbn. exists []. split; [rewrite app_nil_r; reflexivity|]. exists 0. split; [reflexivity | lia].
+    + cbn [widths]. rewrite Ea. exact Hinv.
+    + reflexivity.
+    + cbn [prefix]. rewrite Hp, units_str_app. cbn. destruct l; cbn; rewrite app_nil_r; reflexivity.
+Qed.
+
+(** [start_parent] at the top level: no glyph, headings, prefix unchanged. *)
+Lemma start_parent_top : forall a p name l,
+  inv a p -> depth p = 0 -> prefix p = [] ->
+  exists p' line, start_parent p name l = Ok (p', line ++ [nl]) /\
+    line_ok (LTop name (parent_cells a true)) line /\
+    inv a p' /\ depth p' = 1 /\ prefix p' = [].
+Proof.
+  intros a p name l Hinv Hd Hp.
+  pose proof (inv_has_columns _ _ Hinv) as Hc.
+  unfold start_parent. rewrite Hd. cbn [Nat.eqb]. rewrite Hc.
+  unfold parent_cells, inv in *.
+  destruct (is_bench a) eqn:Ea.
+  - destruct Hinv as [Hl Hpos].
+    destruct (write_cols_shape headings (widths p)) as (s & ws' & E & Sh & L & Hp');
+      [cbn; congruence | rewrite Hl; cbn; lia |].
+    destruct (right_pad_spec (length (prefix p ++ [] ++ name)) (max_name_span p)) as (k & Ek & Hk).
+    destruct (right_pad _ _) as [pad span] eqn:Erp. cbn [fst] in Ek. subst pad.
+    rewrite E. cbn [bind fst snd].
+    eexists. exists (name ++ spaces k ++ s).
+    split; [|split; [|split; [|split]]].
+    + rewrite Hp. cbn [app]. f_equal. f_equal. rewrite <- !app_assoc. reflexivity.
+    + cbn. eexists. split; [reflexivity|]. exists k, s. auto.
+    + cbn [widths]. rewrite Ea. split; [lia | auto].
+    + reflexivity.
+    + cbn [prefix]. exact Hp.
+  - cbn [bind fst snd].
+    eexists. exists name.
+    split; [|split; [|split; [|split]]].
+    + rewrite Hp. cbn [app]. rewrite !app_nil_r. reflexivity.
+    + cbn. exists []. split; [rewrite app_nil_r; reflexivity|]. exists 0. split; [reflexivity | lia].
+    + cbn [widths]. rewrite Ea. exact Hinv.
+    + reflexivity.
+    + cbn [prefix]. exact Hp.
+Qed.
+
+Lemma firstn_units : forall fl b,
+  firstn (length (units_str (fl ++ [b])) - 3) (units_str (fl ++ [b])) = units_str fl.
+Proof.
+  intros. rewrite units_str_app. rewrite app_length.
+  replace (length (units_str [b])) with 3 by (destruct b; reflexivity).
+  replace (length (units_str fl) + 3 - 3) with (length (units_str fl) + 0) by lia.
+  rewrite firstn_app_2. cbn. rewrite app_nil_r. reflexivity.
+Qed.
+
+(** [finish_parent] of a parent below the top level. *)
+Lemma finish_parent_inner : forall a p fl b,
+  inv a p -> depth p = S (S (length fl)) -> prefix p = units_str (fl ++ [b]) ->
+  exists p', finish_parent p = Ok (p', []) /\
+    inv a p' /\ depth p' = S (length fl) /\ prefix p' = units_str fl.
+Proof.
+  intros a p fl b Hinv Hd Hp. unfold finish_parent. rewrite Hd. cbn [Nat.eqb].
+  eexists. split; [reflexivity|]. split; [exact Hinv|]. split; [reflexivity|].
+  cbn [prefix]. rewrite Hp. apply firstn_units.
+Qed.
+
+(** [finish_parent] of a top-level parent: a blank line. *)
+Lemma finish_parent_top : forall a p,
+  inv a p -> depth p = 1 -> prefix p = [] ->
+  exists p', finish_parent p = Ok (p', [nl]) /\
+    inv a p' /\ depth p' = 0 /\ prefix p' = [].
+Proof.
+  intros a p Hinv Hd Hp. unfold finish_parent. rewrite Hd. cbn [Nat.eqb].
+  eexists. split; [reflexivity|]. split; [exact Hinv|]. split; [reflexivity|].
+  cbn [prefix]. rewrite Hp. reflexivity.
+Qed.
+
+(** [ignore_leaf] *)
+Lemma ignore_leaf_line : forall a p fl name l,
+  inv a p -> prefix p = units_str fl ->
+  exists p' line, ignore_leaf p name l = Ok (p', line ++ [nl]) /\
+    line_ok (LNode fl l name (Some (if is_bench a then from_first s_ignored else [s_ignored]))) line /\
+    inv a p' /\ depth p' = depth p /\ prefix p' = prefix p.
+Proof.
+  intros a p fl name l Hinv Hp.
+  pose proof (inv_has_columns _ _ Hinv) as Hc.
+  unfold ignore_leaf. rewrite Hc.
+  destruct (right_pad_spec (length (prefix p ++ branch_glyph l ++ name)) (max_name_span p)) as (k & Ek & Hk).
+  destruct (right_pad _ _) as [pad span] eqn:Erp. cbn [fst] in Ek. subst pad.
+  unfold inv in *.
+  destruct (is_bench a) eqn:Ea.
+  - destruct Hinv as [Hl Hpos].
+    destruct (write_cols_shape (from_first s_ignored) (widths p)) as (s & ws' & E & Sh & L & Hp');
+      [cbn; congruence | rewrite Hl; cbn; lia |].
+    rewrite E. cbn [bind fst snd].
+    eexists. exists (units_str fl ++ branch_glyph l ++ name ++ spaces k ++ s).
+    split; [|split; [|split; [|split]]].
+    + rewrite Hp. f_equal. f_equal. rewrite <- !app_assoc. reflexivity.
+    + cbn. eexists. split; [reflexivity|]. exists k, s. auto.
+    + cbn [widths]. rewrite Ea. split; [lia | auto].
+    + reflexivity.
+    + reflexivity.
+  - cbn [bind fst snd].
+    eexists. exists (units_str fl ++ branch_glyph l ++ name ++ spaces k ++ s_ignored).
+    split; [|split; [|split; [|split]]].
+    + rewrite Hp. f_equal. f_equal. rewrite <- !app_assoc. reflexivity.
+    + cbn. eexists. split; [reflexivity|]. exists k, s_ignored. repeat split; auto. constructor.
+    + cbn [widths]. rewrite Ea. exact Hinv.
+    + reflexivity.
+    + reflexivity.
+Qed.
+
+(** [start_leaf]: the beginning of a line; the padding is empty without
+    columns and at least two spaces with them. *)
+Lemma start_leaf_text : forall a p fl name l,
+  inv a p -> prefix p = units_str fl ->
+  exists p' k, start_leaf p name l = Ok (p', units_str fl ++ branch_glyph l ++ name ++ spaces k) /\
+    (if is_bench a then 2 <= k else k = 0) /\
+    inv a p' /\ depth p' = depth p /\ prefix p' = prefix p.
+Proof.
+  intros a p fl name l Hinv Hp.
+  pose proof (inv_has_columns _ _ Hinv) as Hc.
+  unfold start_leaf. rewrite Hc.
+  destruct (is_bench a) eqn:Ea.
+  - destruct (right_pad_spec (length (prefix p ++ branch_glyph l ++ name)) (max_name_span p)) as (k & Ek & Hk).
+    destruct (right_pad _ _) as [pad span] eqn:Erp. cbn [fst] in Ek. subst pad.
+    eexists. exists k. split; [|split; [exact Hk|split; [|split]]].
+    + rewrite Hp. f_equal. f_equal. rewrite <- !app_assoc. reflexivity.
+    + unfold inv in *. rewrite Ea in *. exact Hinv.
+    + reflexivity.
+    + reflexivity.
+  - eexists. exists 0. split; [|split; [reflexivity|split; [|split]]].
+    + rewrite Hp. f_equal. f_equal. cbn. rewrite !app_nil_r, <- !app_assoc. reflexivity.
+    + unfold inv in *. rewrite Ea in *. exact Hinv.
+    + reflexivity.
+    + reflexivity.
+Qed.
+
+(** Continuation rows. *)
+Lemma write_rows_lines : forall fl l rows span ws,
+  Forall (fun r => length r = 6) rows -> length ws = 6 -> hd_pos ws ->
+  exists out span' ws', write_rows (units_str fl) l rows span ws = Ok (out, span', ws') /\
+    lines_shape (map (LRow fl l) rows) out /\ length ws' = 6 /\ hd_pos ws'.
+Proof.
+  intros fl l rows. induction rows as [|row rest IH]; intros span ws Hf Hl Hpos.
+  - exists [], span, ws. cbn. repeat split; auto. apply lines_shape_nil.
+  - inversion Hf as [|? ? Hr Hf']; subst.
+    cbn [write_rows].
+    destruct (right_pad_spec (length (units_str fl ++ (if negb l then [c_bar] else []))) span) as (k & Ek & Hk).
+    destruct (right_pad _ _) as [pad span1] eqn:Erp. cbn [fst] in Ek. subst pad.
+    destruct (write_cols_shape row ws) as (s & ws1 & E & Sh & L & Hp');
+      [destruct row; cbn in Hr; congruence | rewrite Hr, Hl; lia |].
+    rewrite E. cbn [bind fst snd].
+    destruct (IH span1 ws1 Hf') as (out & span' & ws' & E2 & Sh2 & L2 & Hp2); [lia | auto |].
+    rewrite E2. cbn [bind fst snd].
+    eexists. eexists. eexists. split; [reflexivity|]. split; [|split; auto].
+    cbn [map].
+    replace ((units_str fl ++ (if negb l then [c_bar] else [])) ++ spaces k ++ s ++ [nl] ++ out)
+      with ((units_str fl ++ (if l then [] else [c_bar]) ++ spaces k ++ s) ++ [nl] ++ out).
+    2:{ destruct l; cbn [negb]; rewrite <- !app_assoc; reflexivity. }
+    change (LRow fl l row :: map (LRow fl l) rest) with ([LRow fl l row] ++ map (LRow fl l) rest).
+    rewrite app_assoc.
+    apply lines_shape_app; [|exact Sh2].
+    apply lines_shape_one. cbn. exists k, s. auto.
+Qed.
+
+Definition wf_cells (c : stats_cells) : Prop :=
+  length (time_row c) = 6 /\ Forall (fun r => length r = 6) (cont_rows c).
+
+Lemma fold_max_ge : forall l w, w <= fold_left Nat.max l w.
+Proof. induction l; intros; cbn; [lia|]. specialize (IHl (Nat.max w a)). lia. Qed.
+
+Lemma widen_spec : forall k rows ws, length (widen k rows ws) = length ws /\
+  (hd_pos ws -> hd_pos (widen k rows ws)).
+Proof.
+  induction k; intros rows ws; cbn [widen]; [destruct ws; auto|].
+  destruct ws as [|w ws']; [auto|].
+  cbn [length]. destruct (IHk (map (@tl str) rows) ws') as [L _]. rewrite L. split; [reflexivity|].
+  cbn. intros Hw. pose proof (fold_max_ge (map (fun r => length (hd [] r)) rows) w). lia.
+Qed.
+
+(** [finish_leaf]: the rest of the leaf's line, then its continuation rows. *)
+Lemma finish_leaf_text : forall p fl l c,
+  inv ABench p -> prefix p = units_str fl -> wf_cells c ->
+  exists p' s out, finish_leaf p l c = Ok (p', s ++ [nl] ++ out) /\
+    row_shape (time_row c) s /\ lines_shape (map (LRow fl l) (cont_rows c)) out /\
+    inv ABench p' /\ depth p' = depth p /\ prefix p' = prefix p.
+Proof.
+  intros p fl l c Hinv Hp [Ht Hr]. unfold inv in Hinv. cbn [is_bench] in Hinv. destruct Hinv as [Hl Hpos].
+  unfold finish_leaf.
+  destruct (widen_spec 4 (width_rows c) (widths p)) as [Lw Pw].
+  destruct (write_cols_shape (time_row c) (widen 4 (width_rows c) (widths p))) as (s & ws1 & E & Sh & L & Hp');
+    [destruct (time_row c); cbn in Ht; congruence | rewrite Ht, Lw, Hl; lia |].
+  rewrite E. cbn [bind fst snd].
+  rewrite Hp.
+  destruct (write_rows_lines fl l (cont_rows c) (max_name_span p) ws1 Hr) as (out & span' & ws' & E2 & Sh2 & L2 & Hp2);
+    [lia | auto |].
+  rewrite E2. cbn [bind fst snd].
+  eexists. exists s, out. split; [reflexivity|]. repeat split; auto.
+Qed.
